@@ -21,7 +21,11 @@ import x06gen
 
 SPEC = os.path.join(vlib.VERIF, "spec", "comp")
 T_MOD, T_CFG = os.path.join(SPEC, "InvokeTrace.tla"), os.path.join(SPEC, "InvokeTrace.cfg")
-FINDINGS_DIR = os.path.join(vlib.VERIF, "out", "X06.findings")
+def findings_dir(ctx):
+    """Replay files live outside out/X06 (which every run wipes); runs against a scratch tree keep theirs in their own out dir."""
+    d = ctx.path("findings") if ctx.alt_repo else os.path.join(vlib.VERIF, "out", "X06.findings")
+    os.makedirs(d, exist_ok=True)
+    return d
 
 
 def jprints(out):
@@ -154,11 +158,10 @@ def report_rejections(ctx, rej, tag):
         d = diag_of(ctx, x["path"], f"{tag}{n}")
         k = key_of(d, x["records"])
         groups.setdefault(k, []).append((x, d))
-    os.makedirs(FINDINGS_DIR, exist_ok=True)
     for k, items in sorted(groups.items()):
         items.sort(key=lambda it: len(json.dumps(it[0]["records"][1])))
         x, d = items[0]
-        rp = os.path.join(FINDINGS_DIR, re.sub(r"[^A-Za-z0-9_.-]+", "_", k)[:100] + ".ndjson")
+        rp = os.path.join(findings_dir(ctx), re.sub(r"[^A-Za-z0-9_.-]+", "_", k)[:100] + ".ndjson")
         vlib.write_ndjson(rp, x["records"])
         s = x["records"][1]["s"]
         what = f"{' '.join(str(e) for e in d)}; smallest failing input: {scenario_text(s)}; {len(items)} rejected executions in this run"
@@ -181,13 +184,13 @@ def host_vector_level():
 def part_a(ctx):
     q = ctx.quick
     bdir = ctx.build("plain", "invoke")
-    n = 280 if q else 3000
+    n = 280 if q else 6000
     lvl = host_vector_level()
     ctx.extra["host_vector_level"] = lvl
     scns = export_model_scenarios(ctx) + x06gen.gen(ctx.seed, n, max_avx=lvl)
     place(ctx, scns, "rnd")
     tr = run_scenarios(ctx, bdir, scns, "rnd")
-    recs, execs, rej = validate_sharded(ctx, tr, "tv", per=35 if q else 70, pool=4 if q else 6)
+    recs, execs, rej = validate_sharded(ctx, tr, "tv", per=35 if q else 100, pool=4 if q else 6)
     ncall = sum(1 for r in recs if r.get("e") == "Call")
     nrun = sum(1 for r in recs if r.get("e") == "Leave")
     nrefused = sum(1 for r in recs if r.get("e") == "Build" and not r.get("ok"))
@@ -341,7 +344,6 @@ def front_key(rec):
 
 def front_confirm_known(ctx, execs):
     """A finding listed as known is still reported in every run, after TLC rejected a witness with the allowance switched off."""
-    os.makedirs(FINDINGS_DIR, exist_ok=True)
     for key, pred, what in (
         (K_STALE, lambda r: r.get("e") == "Invoke" and r.get("out") == "stale" and r.get("r") != "Ok",
          "a failed invoke() (bad signature) returns an error but leaves its Out<InvokeNode*> parameter untouched although x86compiler.h / a64compiler.h "
@@ -354,7 +356,7 @@ def front_confirm_known(ctx, execs):
         if not wit:
             continue
         wit.sort(key=len)
-        rp = os.path.join(FINDINGS_DIR, re.sub(r"[^A-Za-z0-9_.-]+", "_", key) + ".ndjson")
+        rp = os.path.join(findings_dir(ctx), re.sub(r"[^A-Za-z0-9_.-]+", "_", key) + ".ndjson")
         vlib.write_ndjson(rp, wit[0])
         r = vlib.run_tlc(ctx, F_MOD, F_CFG, workers=1, timeout=600, env={"TRACE": rp, "KNOWN_STALE_OUT": "0", "KNOWN_A64_LABEL": "0"}, tag="front_confirm", heap="1g")
         if r.kind == "ok":
@@ -380,7 +382,7 @@ def part_b(ctx):
     vlib.record_trace(ctx, bdir, "compfront", ["script", sp, tr1], tr1, timeout=240 if q else 900)
     # (2) seeded random call sequences (misuse included) and tidy ones that reach finalize()
     tr2 = ctx.path("front_trace_random.ndjson")
-    vlib.record_trace(ctx, bdir, "compfront", ["random", tr2, 900 if q else 9000, 36], tr2, timeout=240 if q else 1200, env={"VERIF_SEED": ctx.seed})
+    vlib.record_trace(ctx, bdir, "compfront", ["random", tr2, 900 if q else 15000, 36], tr2, timeout=240 if q else 1200, env={"VERIF_SEED": ctx.seed})
     nev = 0
     for tag, path in (("fs", tr1), ("fr", tr2)):
         recs, execs, rej = front_validate(ctx, path, tag, per=150 if q else 500)
@@ -403,11 +405,10 @@ def part_b(ctx):
         for x in rej:
             bad = x["records"][x["index"]] if x["index"] < len(x["records"]) else {"e": "END"}
             groups.setdefault(front_key(bad) if not x["inv"] else f"front:invariant:{x['inv']}", []).append((x, bad))
-        os.makedirs(FINDINGS_DIR, exist_ok=True)
         for k, items in sorted(groups.items()):
             items.sort(key=lambda it: len(it[0]["records"]))
             x, bad = items[0]
-            rp = os.path.join(FINDINGS_DIR, re.sub(r"[^A-Za-z0-9_.-]+", "_", k)[:100] + ".ndjson")
+            rp = os.path.join(findings_dir(ctx), re.sub(r"[^A-Za-z0-9_.-]+", "_", k)[:100] + ".ndjson")
             vlib.write_ndjson(rp, x["records"])
             calls = " ".join(r_["e"] for r_ in x["records"][1:x["index"] + 1])[-300:]
             what = f"event {json.dumps({kk: vv for kk, vv in bad.items() if kk != 'p'})[:260]} is not a step of CompilerFront.tla after: {calls}; {len(items)} executions"
@@ -434,8 +435,10 @@ def static_case_text(c):
             f"{['imm' if x == 0 else 'arg%d' % x for x in c['map']]} fp={c['fp']}")
 
 
-def static_key(d):
+def static_key(d, case=None):
     # d = [family, what, ...]
+    if d[1] == "build-refused" and case is not None:
+        return f"static:{d[0]}:build-refused:{case['env']}:fp{case['fp']}:" + re.sub(r"[^A-Za-z0-9]+", "-", f"{d[2]}-{d[3]}")
     if d[1] == "arg":
         return f"static:{d[0]}:arg:{d[2]}:{d[3]}:{d[4]}" + (":hi" if d[5] > 1 else "")
     if d[1] == "build-refused":
@@ -446,7 +449,7 @@ def static_key(d):
 def part_c(ctx):
     q = ctx.quick
     bdir = ctx.build("asan", "compfront")
-    cases = x06gen.gen_static(ctx.seed, 700 if q else 9000)
+    cases = x06gen.gen_static(ctx.seed, 700 if q else 16000)
     cp, op = ctx.path("static_cases.ndjson"), ctx.path("static_obs.ndjson")
     vlib.write_ndjson(cp, cases)
     rc, _, err = vlib.run_harness(ctx, bdir, "compfront", ["static", cp, op], timeout=300 if q else 1500)
@@ -454,8 +457,7 @@ def part_c(ctx):
     if rc != 0 or len(lines) != len(cases):
         # a crash / sanitizer abort of the real Compiler on a documented use: the case it stopped at is the finding
         k = len(lines)
-        rp = os.path.join(FINDINGS_DIR, "static_abort.ndjson")
-        os.makedirs(FINDINGS_DIR, exist_ok=True)
+        rp = os.path.join(findings_dir(ctx), "static_abort.ndjson")
         vlib.write_ndjson(rp, [cases[min(k, len(cases) - 1)]])
         why = next((x.strip() for x in (err or "").splitlines() if "Sanitizer" in x or "runtime error" in x), (err or "").strip()[-200:])
         ctx.violation(f"key=static:abort harness stopped at case {k} (rc={rc}): {why}; input: {static_case_text(cases[min(k, len(cases) - 1)])}", rp)
@@ -487,14 +489,13 @@ def part_c(ctx):
     ctx.extra["static_instructions_executed"] = ninst
     groups = {}
     for idx, d in bad:
-        groups.setdefault(static_key(d), []).append((idx, d))
+        groups.setdefault(static_key(d, json.loads(lines[idx])), []).append((idx, d))
     ctx.log(f"(B/static) {len(lines)} call sequences of the real Compiler for x86-32 / Win64 / AArch64 executed on the abstract machine "
             f"({ninst} instructions; {deferred} cases left to C06(a)); {len(bad)} rejected in {len(groups)} classes")
-    os.makedirs(FINDINGS_DIR, exist_ok=True)
     for k, items in sorted(groups.items()):
         items.sort(key=lambda it: (len(lines[it[0]]), it[0]))
         idx, d = items[0]
-        rp = os.path.join(FINDINGS_DIR, re.sub(r"[^A-Za-z0-9_.-]+", "_", k)[:100] + ".ndjson")
+        rp = os.path.join(findings_dir(ctx), re.sub(r"[^A-Za-z0-9_.-]+", "_", k)[:100] + ".ndjson")
         open(rp, "w").write(lines[idx] + "\n")
         # second, strict run on the minimal input alone: must be a TLC invariant violation
         r = vlib.run_tlc(ctx, S_MOD, S_CFG, workers=1, timeout=600, env={"CASES": rp, "MODE": "strict"}, tag="static_strict", heap="1g")
@@ -532,8 +533,8 @@ def run(ctx):
         t0 = time.time()
         fn(ctx)
         t[name] = round(time.time() - t0, 1)
-    with ThreadPoolExecutor(max_workers=3) as ex:
-        futs = [ex.submit(timed, "design", design), ex.submit(timed, "part_a", part_a), ex.submit(timed, "part_b", lambda c: (part_b(c), part_c(c)))]
+    with ThreadPoolExecutor(max_workers=4) as ex:
+        futs = [ex.submit(timed, "design", design), ex.submit(timed, "part_a", part_a), ex.submit(timed, "part_b", part_b), ex.submit(timed, "part_c", part_c)]
         errs = []
         for f in futs:
             try:
